@@ -38,11 +38,12 @@ Qed.
 Lemma deep_line : forall f t, (depth t <= f)%nat -> wf_b t = true -> exists l, In l (spell t) /\ (S (depth t) <= weight l)%nat.
 Proof.
   induction f as [|f IH]; intros t Hd Hw.
-  - destruct t as [c body more|ch n content|ts|mk pad ts|lv hc hb]; [| |cbn [depth] in Hd; lia|cbn [depth] in Hd; lia|].
+  - destruct t as [c body more|ch n content|ts|mk pad ts|lv hc hb|rc rn]; [| |cbn [depth] in Hd; lia|cbn [depth] in Hd; lia| |].
     + exists (SLine 0 c body). split; [left; reflexivity|cbn [depth weight]; lia].
     + exists (SLine 0 ch (repeat ch (n - 1))). split; [left; reflexivity|cbn [depth weight]; lia].
     + eexists. split; [left; reflexivity|cbn [depth weight]; lia].
-  - destruct t as [c body more|ch n content|ts|mk pad ts|lv hc hb].
+    + eexists. split; [left; reflexivity|cbn [depth weight]; lia].
+  - destruct t as [c body more|ch n content|ts|mk pad ts|lv hc hb|rc rn].
     + exists (SLine 0 c body). split; [left; reflexivity|cbn [depth weight]; lia].
     + exists (SLine 0 ch (repeat ch (n - 1))). split; [left; reflexivity|cbn [depth weight]; lia].
     + cbn [wf_b] in Hw. repeat rewrite andb_true_iff in Hw. destruct Hw as [[Hs Hall] Hg].
@@ -68,6 +69,7 @@ Proof.
       * eexists. split; [left; reflexivity|]. cbn [weight] in Wl |- *. rewrite !app_length, repeat_length. cbn [length]. lia.
       * exists (embed_s (length (m0 :: mr) + pad) l). split; [right; apply in_map; exact Hj|].
         destruct l as [|k c body]; cbn [weight] in Wl; [lia|]. cbn [embed_s weight length]. lia.
+    + eexists. split; [left; reflexivity|cbn [depth weight]; lia].
     + eexists. split; [left; reflexivity|cbn [depth weight]; lia].
 Qed.
 
